@@ -125,7 +125,7 @@ class Lexer:
         """
         try:
             t.value = decode_escapes(t.value[1:-1])
-        except UnicodeDecodeError:
+        except UnicodeError:
             raise exceptions.YaqlLexicalException(t.value, t.lexpos)
         return t
 
@@ -136,7 +136,7 @@ class Lexer:
         """
         try:
             t.value = decode_escapes(t.value[1:-1])
-        except UnicodeDecodeError:
+        except UnicodeError:
             raise exceptions.YaqlLexicalException(t.value, t.lexpos)
         t.type = 'QUOTED_STRING'
         return t
